@@ -75,9 +75,13 @@ scalar = st.one_of(
     st.sampled_from([[1.0], [1.0, 2.0], [], [[1.0]], [float("nan")]]).map(lambda x: {"t": "np_array", "v": x}),
     st.sampled_from(["dict", "set", "generator", "object", "emptydict"]).map(lambda x: {"t": x}),
 )
+_plain = st.sampled_from([float("nan"), 1.0, 0.0, float("inf"), -1.5, 2.0])
 value = st.one_of(
     scalar,
     scalar,
+    # plain float vectors of the usual lengths (some, all or no component NaN)
+    st.lists(_plain, min_size=1, max_size=3).map(lambda x: {"t": "list", "v": [{"t": "float", "v": f} for f in x]}),
+    st.lists(_plain, min_size=2, max_size=3).map(lambda x: {"t": "tuple", "v": [{"t": "float", "v": f} for f in x]}),
     st.lists(scalar, max_size=4).map(lambda x: {"t": "list", "v": x}),
     st.lists(scalar, max_size=4).map(lambda x: {"t": "tuple", "v": x}),
     st.integers(0, 4).map(lambda n: {"t": "range", "v": n}),
